@@ -56,11 +56,14 @@ def Outcome.isErr : Outcome → Bool
   | .ok => false
   | _ => true
 
-/-- `(*Struct).InitializeMultiline` (internal/jsonopts/options.go:183-195). -/
-def initializeMultiline (s : Struct) : Struct :=
-  let s1 : Struct := if !s.flags.has W.spaceAfterColon then { s with flags := s.flags.set (W.spaceAfterColon ||| one) } else s
-  let s2 : Struct := if !s1.flags.has W.spaceAfterComma then { s1 with flags := s1.flags.set W.spaceAfterComma } else s1
-  if !s2.flags.has W.indent then { s2 with flags := s2.flags.set (W.indent ||| one), indent := [0x09] } else s2
+/-- `(*Struct).InitializeMultiline` (internal/jsonopts/options.go:183-195), one `if` each. -/
+def imColon (s : Struct) : Struct :=
+  if !s.flags.has W.spaceAfterColon then { s with flags := s.flags.set (W.spaceAfterColon ||| one) } else s
+def imComma (s : Struct) : Struct :=
+  if !s.flags.has W.spaceAfterComma then { s with flags := s.flags.set W.spaceAfterComma } else s
+def imIndent (s : Struct) : Struct :=
+  if !s.flags.has W.indent then { s with flags := s.flags.set (W.indent ||| one), indent := [0x09] } else s
+def initializeMultiline (s : Struct) : Struct := imIndent (imComma (imColon s))
 
 /-- `jsonopts.ChangedWhitespace(s1, s2)` (options.go:198-203). -/
 def changedWhitespace (s1 s2 : Struct) : Bool :=
